@@ -52,5 +52,67 @@ theorem dft_congr (n : ℕ) (x y : ℕ → ℂ) (h : ∀ i < n, x i = y i) (k : 
   intro m hm
   rw [h m (Finset.mem_range.mp hm)]
 
+theorem ω_mod (n j : ℕ) (hn : 0 < n) : ω n (j % n) = ω n j := by
+  conv_rhs => rw [← Nat.div_add_mod j n]
+  rw [ω_add, ω_self_mul _ _ hn, one_mul]
+
+theorem ω_conj_self (n a : ℕ) : (starRingEnd ℂ) (ω n a) * ω n a = 1 := by
+  unfold ω
+  rw [← Complex.exp_conj, map_mul, map_neg, Complex.conj_ofReal, Complex.conj_I, ← Complex.exp_add]
+  have : -(((2 * Real.pi * (a : ℝ) / (n : ℝ)) : ℝ) : ℂ) * -I + -(((2 * Real.pi * (a : ℝ) / (n : ℝ)) : ℝ) : ℂ) * I = 0 := by ring
+  rw [this, Complex.exp_zero]
+
+/-- `conj ω^a = ω^b` when `a + b` is a multiple of `n` -/
+theorem ω_conj_of_dvd (n a b : ℕ) (hn : 0 < n) (h : n ∣ a + b) : (starRingEnd ℂ) (ω n a) = ω n b := by
+  obtain ⟨c, hc⟩ := h
+  have h1 : ω n a * ω n b = 1 := by rw [← ω_add, hc, ω_self_mul _ _ hn]
+  calc (starRingEnd ℂ) (ω n a) = (starRingEnd ℂ) (ω n a) * (ω n a * ω n b) := by rw [h1, mul_one]
+    _ = ((starRingEnd ℂ) (ω n a) * ω n a) * ω n b := by ring
+    _ = ω n b := by rw [ω_conj_self, one_mul]
+
+/-- the transform of a real sequence is conjugate-symmetric -/
+theorem dft_conj_symm (n : ℕ) (hn : 0 < n) (r : ℕ → ℝ) (k : ℕ) (hk : k ≤ n) :
+    (starRingEnd ℂ) (dft n (fun m => ((r m : ℝ) : ℂ)) (n - k)) = dft n (fun m => ((r m : ℝ) : ℂ)) k := by
+  unfold dft
+  rw [map_sum]
+  apply Finset.sum_congr rfl
+  intro m _
+  rw [map_mul, Complex.conj_ofReal, ω_conj_of_dvd n (m * (n - k)) (m * k) hn]
+  rw [← Nat.mul_add, Nat.sub_add_cancel hk]
+  exact Dvd.intro_left _ rfl
+
+theorem toC_mulr (z : Cx ℝ) (r : ℝ) : Cx.toC (Cx.mulr z r) = Cx.toC z * (r : ℂ) := by
+  apply Complex.ext <;> simp [Cx.mulr]
+
+theorem toC_untangle (a b : Cx ℝ) : Cx.toC ⟨a.re - b.im, a.im + b.re⟩ = Cx.toC a + I * Cx.toC b := by
+  apply Complex.ext <;> simp <;> ring
+
+theorem toC_ofReal (v : ℝ) : Cx.toC (Fft.ofReal v) = (v : ℂ) := by
+  apply Complex.ext <;> simp [Fft.ofReal]
+
+theorem ω_half (h : ℕ) (hh : 0 < h) : ω (h * 2) h = -1 := by
+  have : ω (h * 2) (1 * h) = ω 2 1 := by rw [Nat.mul_comm h 2]; exact ω_scale 2 h 1 hh
+  rw [Nat.one_mul] at this
+  rw [this]
+  unfold ω
+  have e : -(((2 * Real.pi * ((1 : ℕ) : ℝ) / ((2 : ℕ) : ℝ)) : ℝ) : ℂ) * I = -((Real.pi : ℂ) * I) := by
+    push_cast; ring
+  rw [e, Complex.exp_neg, Complex.exp_pi_mul_I]; norm_num
+
+
+theorem toC_expj (t : ℝ) : Cx.toC (expj t) = Complex.exp ((t : ℂ) * I) := by
+  apply Complex.ext
+  · rw [Complex.exp_ofReal_mul_I_re]; rfl
+  · rw [Complex.exp_ofReal_mul_I_im]; rfl
+
+/-- entry `i` of `expj(-2 * pi * arange(·) / n)` denotes `ω n i` -/
+theorem toC_twiddle (n i : ℕ) : Cx.toC (twiddle (α := ℝ) n i) = ω n i := by
+  unfold twiddle ω
+  rw [toC_expj]
+  congr 2
+  simp only [fn_ofInt, fn_ofNat, fn_pi]
+  push_cast
+  ring
+
 end Fft
 end Dsp
